@@ -2,7 +2,13 @@ import NanoVerif.Proofs.Reduce
 import NanoVerif.Props.C13
 import NanoVerif.Props.C16
 import NanoVerif.Props.C17
+import NanoVerif.Props.C09
+import NanoVerif.Props.C11
 import NanoVerif.Gen.MutableState
+import NanoVerif.Proofs.SharingAllow
+import NanoVerif.Proofs.SharingPool
+import NanoVerif.Proofs.SharingTune
+import NanoVerif.Proofs.SharingFit
 /-!
   C18 — shared const objects are thread-safe with schedule-independent results: the part that is LOGIC.
 
@@ -23,6 +29,54 @@ import NanoVerif.Gen.MutableState
     * `mutable_state_allowlisted`    every `mutable` member, non-const static and pointer/reference member found in the CURRENT
                                      sources (`Gen/MutableState.lean`, regenerated on every run) is one of the reviewed entries below.
   Everything about actual races and bit-identical floating-point results is tested (tools/props/c18.py), not proved.
+
+  Gap-closing round — corollaries on the EXTENDED models of the other properties (all schedules / assignments / pool sizes):
+    * `inline_calls_share_no_buffer`   (C17 model incl. the sequential path of `map`) two activities that execute the operator at
+                                     the same time — tasks run by workers with the pool's tnum, or operator calls made INLINE by
+                                     callers (≤ chunk elements or a 1-thread pool: tnum 0) — belong to different calls or have
+                                     different slots; so a buffer vector owned by a PER-CALL object (every iterator is a local of
+                                     its fit / predict call: `[per-call]` entries of the allow-list) is never shared;
+                                     `shared_object_inline_calls_collide`: kernel-checked reachable state with two inline calls on
+                                     slot 0 — a buffer vector owned by the SHARED object (seeded C18-e1) collides there;
+    * `served_rows_independent_of_slot` (C09 iterator model) the rows served for a range do not depend on the worker id / slot;
+    * `no_task_outlives_call`        (C17 `map_exit_implies_all_ready`) after `map` is left no task of the call runs in any later
+                                     state: the `[&]` captures of the call's stack frame are not used after it is gone;
+    * `tune_schedule_independent`    (C13 `tune_reads_only_earlier`) the batch AS CODED (warm-start data read from the live result)
+                                     = the batch as modelled, the same result for every order of the tasks;
+                                     `tune_live_read_in_flight_schedule_dependent`: with a closest trial IN the batch (seeded
+                                     C18-c1) two orders give different results (kernel-checked);
+    * `fit_result_schedule_independent` (C11 `ml::result_t` model) the whole `ml::tune` run, every slot / statistic / optimum;
+    * `dtree_fit_assignment_independent` (C10) the BFS tree fit with an own feature → worker assignment at every node;
+    * `feature_selection_thread_count_independent` (C09 `loopKind_visits`) the features a fit visits do not depend on the pool
+                                     size; `seeded_feature_loop_drops_features` (seeded C18-e3).
+
+  Gap table (anchors of properties.jsonl; `modelled` = a Lean definition the C18 theorems speak about, `other` = modelled by the
+  named property whose theorems C18 composes, `scan` = covered by the source scan only, `tested` = behavioural runs only):
+
+  | code                                                            | status   | where                                                                  |
+  |-----------------------------------------------------------------|----------|------------------------------------------------------------------------|
+  | parallel.h `pool_t::map` ×2 (parallel + sequential path), `enqueue`, `section_t`, `worker_t::operator()` | other C17 | `Pool.step`, `step2`; here `Sharing.Owned`, `Act`, `concurrent_acts_disjoint` |
+  | solver.cpp `make_lsearch` (94-106), `minimize` (109-117)          | modelled | `Reduce.World / exec / run` (`minimize_is_pure`); NOT tied by a correspondence (tested: `shared minimize`) |
+  | solver.cpp ctor / copy ctor / `lsearch0(…)` / `lsearchk(…)` / `type` / `more_precise` / `all` / `make_solver` | scan + other C19 | non-const (no concurrent use) or `std::call_once` factories ([sync] entries) |
+  | solver.cpp `done`; solver/lsearch.cpp `lsearch_t::get`; lsearch0/*.cpp `get` (m_prevf, m_prevdg, m_last_step_size) | other C01/C02/C07 | state lives in the per-call `lsearch_t` (allow-list [per-call]); values: `Model/SolverStep.lean` |
+  | machine/tune.cpp `tune`, `tuner_callback`, `thread_callback`      | other C13 + modelled | `Tune.runBatch`; here `Sharing.runBatchLive` (live read as coded), `tune_writes_disjoint` |
+  | machine/result.cpp `add`, `store` ×2, `stats` ×2, `extra`, `value`, `values`, `optimum_trial`, `closest_trial` | other C13/C11 | `Tune.Result.*`, `MLResult.*`; `log_path`, `make_random_path`: outside (file names) |
+  | dataset.cpp `flatten`, `select` ×4, `targets`, `feature`, `column2feature`, `update`, `add` | other C08 | const methods write only the CALLER's buffer argument (scan: no mutable member in dataset_t) |
+  | dataset.cpp `thread_pool()`, `concurrency()`                      | other C17 | the shared pool: several submitters (`cPush` by any client) |
+  | dataset/iterator.cpp `features_per_thread`, ctors, `targets`, `flatten`, `cache_*`, `batch`, `scaling`, `loop` ×11 | other C09 | `Iterator.Iter.*`, `loopKind`, `loopList`, `loopOne`; buffers: [per-worker] entries + `inline_calls_share_no_buffer` |
+  | linear.cpp `fit`, `do_predict`, linear/function.cpp `do_vgrad`    | other C09/C11 | `LinearFit.*`, `Objective.*`; the iterator of `do_predict` is a local: [per-call] (seeded C18-e1 = scan hit) |
+  | gboost/model.cpp `fit`, `do_predict`, fold task, gboost/function.cpp | other C09/C11 | `BoostFit.*`, `Objective.*`; accumulators [per-function][per-worker] |
+  | wlearner/*.cpp `fit` (affine, stump, hinge, table ×4, dtree), reduce.h `min_reduce_feature`, `sum_reduce` | other C10 + modelled | `fitAssigned`, `dtreeLoop`; here `Reduce.mapMinReduce / mapSumReduce` (tied by the `reduce` ops), `Sharing.dtreeLoopS` |
+  | wlearner/*.cpp `predict`, `split`, `clone`, `read`, `write`       | other C10/C15 | const, no member written (scan) |
+  | function.cpp `fcalls/gcalls` counters (`mutable`)                 | scan     | [per-function]: each thread has its own function object (statement of C18) |
+  | function.cpp the rest (constraints, `make`, `all`)                | other C06/C19 | const or `std::call_once` |
+  | C++ memory model, `std::mutex`, actual data races, bit-identical doubles | tested | concurrent-vs-sequential runs, TSan (thorough tier) |
+
+  `_partial` theorems: none. Hypotheses re-examined: `SchedSorted` of `min_reduce_assignment_independent` is necessary (witness in
+  the non-vacuity example, replayed by `reduce min` ops on unsorted schedules); "closest trial is an earlier one" of
+  `tune_schedule_independent` is necessary (`tune_live_read_in_flight_schedule_dependent`, seeded C18-c1 on the real code); "a
+  different object per call" of `inline_calls_share_no_buffer` is necessary (`shared_object_inline_calls_collide`, seeded C18-e1 on the
+  real code: `shared predict` with fewer samples than the batch).
 -/
 namespace NanoVerif.C18
 open NanoVerif.Reduce
@@ -318,145 +372,261 @@ example :
     (run id stepFn (World.init 0) mixed).loc 0 = some (2, 11) := by
   decide
 
+
+/-! ## gap-closing round: corollaries on the extended models -/
+
+/-! ### per-worker buffers belong to per-call objects (C17 model with the sequential path of `map`) -/
+
+open NanoVerif.Pool NanoVerif.Sharing in
+/-- **Inline calls share no buffer.** `Act` = an activity that executes the operator of a `map`: a task run by a pool worker
+    (slot = the worker id the pool passes as `tnum`) or the operator call the CALLER makes itself on the sequential path of `map`
+    (`size() == 1` or a single chunk — fewer samples than the batch, a 1-thread dataset pool: slot 0). In every reachable state
+    of the pool — any number of workers, tasks, concurrent submitters and inline callers — two different activities that are
+    live at the same time each belong to a client call (`live_has_call`: a pending task's call has not left `map`), and whatever
+    calls they belong to, these are DIFFERENT calls or the activities use DIFFERENT slots. Hence for buffers `obj call` owned by a
+    per-call object — the iterators `flatten_iterator_t` / `targets_iterator_t` / `select_iterator_t` are locals of the fit /
+    predict / fold-task call that uses them, the ML function objects are built inside that call; models and datasets own none
+    (allow-list: no `[per-worker]` entry outside iterators and function objects) — the addressed buffers `(obj call, slot)` differ. -/
+theorem inline_calls_share_no_buffer (s : St) (hr : Reachable s) (a b : Act) (ha : a.live s) (hb : b.live s) (hne : a ≠ b) :
+    (∃ ca, a.call s ca) ∧ (∃ cb, b.call s cb) ∧
+    ∀ ca cb, a.call s ca → b.call s cb →
+      (ca ≠ cb ∨ a.slot s ≠ b.slot s) ∧
+      ∀ {γ : Type} (obj : Nat → γ), (∀ x y, obj x = obj y → x = y) → (obj ca, a.slot s) ≠ (obj cb, b.slot s) := by
+  refine ⟨live_has_call s hr a ha, live_has_call s hr b hb, ?_⟩
+  intro ca cb hca hcb
+  have hd := concurrent_acts_disjoint s hr a b ha hb hne ca cb hca hcb
+  refine ⟨hd, ?_⟩
+  intro γ obj hinj heq
+  rcases hd with hd | hd
+  · exact hd (hinj _ _ (congrArg Prod.fst heq))
+  · exact hd (congrArg Prod.snd heq)
+
+open NanoVerif.Pool NanoVerif.Sharing in
+/-- The hypothesis "a different object per call" is necessary — seeded change C18-e1 (`mutable m_buffers` in `linear_t`, indexed
+    by `tnum`): on a pool of 16 workers two callers predicting few samples both take the sequential path and both run their
+    operator with `tnum = 0` at the same time (kernel-checked run); buffers owned by an object the two calls share
+    (`obj 0 = obj 1`) are then the SAME buffer. Replayed on the real code by `shared predict` with fewer samples than the batch. -/
+theorem shared_object_inline_calls_collide :
+    ∃ s, Reachable s ∧ s.nw = 16 ∧ Act.live s (.inline 0) ∧ Act.live s (.inline 1) ∧
+      ∀ {γ : Type} (obj : Nat → γ), obj 0 = obj 1 →
+        (obj 0, Act.slot s (.inline 0)) = (obj 1, Act.slot s (.inline 1)) := by
+  refine ⟨_, ⟨16, [.sStart 0 1, .sStart 1 1, .sOpBegin 0, .sOpBegin 1], rfl⟩, rfl, ⟨1, 0, none, rfl⟩, ⟨1, 0, none, rfl⟩, ?_⟩
+  intro γ obj h
+  simp only [Act.slot, h]
+
+open NanoVerif.Pool NanoVerif.Sharing in
+/-- non-vacuity of `inline_calls_share_no_buffer`: a worker-run task of call 0 (worker 0 → slot 0) and an inline operator call of
+    caller 1 (slot 0) are live at the same time — same slot, different calls -/
+example : ∃ s, Reachable s ∧ Act.live s (.task 5) ∧ Act.live s (.inline 1) ∧ Act.slot s (.task 5) = Act.slot s (.inline 1) ∧
+    Act.call s (.task 5) 0 ∧ Act.call s (.inline 1) 1 := by
+  refine ⟨_, ⟨2, [.cPush 0 [5, 6] true, .cNotify 0 none, .wTake 0, .sStart 1 3, .sOpBegin 1], rfl⟩, ⟨0, rfl⟩,
+    ⟨3, 0, none, rfl⟩, rfl, ⟨[5, 6], Or.inl rfl, by decide⟩, rfl⟩
+
+open NanoVerif.Pool NanoVerif.Sharing in
+/-- **No task of a call outlives the call** (C17 `map_exit_implies_all_ready` + `ready_stable`): when a client leaves `map` —
+    returning, or with an exception propagating — every future of the call is ready, and in EVERY later state of every
+    continuation (any events of the pool, of other callers, of a destructor) each task of the call is still ready, is not being
+    run by any worker, and no worker's pc names it. The operator, which captures the caller's stack frame by reference
+    (`[&]` lambdas over the iterator, the caches, the outputs), is therefore never executed after the frame is gone. -/
+theorem no_task_outlives_call (s s' : St2) (hr : Reachable2 s) (c : Nat) (h : step2 false s (.exit c) = some s') :
+    ∃ ts, s.base.cpc c = .waiting ts ∧
+      ∀ (es : List Ev2) (s'' : St2), run2 false s' es = some s'' → ∀ t ∈ ts,
+        ready? (s''.base.ts t) = true ∧ (∀ w, s''.base.ts t ≠ .running w) ∧
+        (∀ w, w < s''.base.nw → s''.base.wpc w ≠ .running t) := by
+  obtain ⟨ts, raise, exc, hpc, hwait, _, hall, _, _⟩ := map_exit_implies_all_ready s s' hr c h
+  obtain ⟨hrb, hs⟩ := reachable2_invs s hr
+  have hstep := exit_refines_cReturn s s' hr c h
+  have hrb' : Reachable s'.base := reachable_step hrb hstep
+  have hs' : SecInv s' := (secinv_step s s' (.exit c) (reachable_invs s.base hrb).1 hs h).1
+  have hts : s'.base.ts = s.base.ts := by
+    obtain ⟨_, _, _, _, rfl⟩ := step2_exit h
+    rfl
+  refine ⟨ts, hwait, ?_⟩
+  intro es s'' hrun t ht
+  obtain ⟨hr'', hall''⟩ := ready_forever ts es s' s'' hrb' hs' (fun t ht => by rw [hts]; exact hall t ht) hrun
+  have hready := (hall'' t ht).1
+  have hnr : ∀ w, s''.base.ts t ≠ .running w := by
+    intro w hw
+    rw [hw] at hready
+    simp [ready?] at hready
+  refine ⟨hready, hnr, ?_⟩
+  intro w hw hpcw
+  exact hnr w (((task_bookkeeping s''.base hr'').run_iff t w).mpr ⟨hw, hpcw⟩)
+
+open NanoVerif.Pool in
+/-- non-vacuity: a `map` of two tasks on two workers is left after both ran (a complete run of the section model) -/
+example : (run2 false (init2 2) [.base (.cPush 0 [0, 1] true), .base (.cNotify 0 none), .base (.wTake 0), .base (.wTake 1),
+      .base (.wRunEnd 0 false), .base (.wRunEnd 1 false), .bBegin 0 true, .bWait 0, .bWait 0, .bDone 0, .dWait 0, .dWait 0,
+      .exit 0]).map (fun s => (s.spc 0, s.base.ts 0, s.base.ts 1)) = some (.out none, .done, .done) := by
+  decide
+
+
+open NanoVerif.Iterator NanoVerif.Scaling in
+/-- **What an iterator serves does not depend on the slot** (C09 `Model/Iterator.lean`): for every iterator state, dataset and
+    range, two existing worker ids are served the same rows by `flatten(tnum, range)` / `targets(tnum, range)` — the per-worker
+    buffer `m_flatten_buffers[tnum]` / `m_targets_buffers[tnum]` is scratch space that is resized and completely overwritten by
+    `dataset.flatten(samples, buffer)` inside the call (the model keeps only the guard `tnum < buffers.size()`). Together with
+    `inline_calls_share_no_buffer` (no two live activities address the same scratch buffer): which worker — or the caller itself
+    with `tnum 0` — serves a chunk changes neither the rows nor anything another activity sees. -/
+theorem served_rows_independent_of_slot {α : Type} [Add α] [Sub α] [Mul α] [Div α] [Neg α] [LT α] [DecidableLT α]
+    [OfNat α 0] [OfNat α 1] [NatCast α] [FinTest α] (it : Iter α) (D : Data α) (t1 t2 b e : Nat)
+    (h1 : t1 < it.workers) (h2 : t2 < it.workers) :
+    it.serveF D t1 b e = it.serveF D t2 b e ∧ it.serveT D t1 b e = it.serveT D t2 b e := by
+  unfold Iter.serveF Iter.serveT
+  simp only [h1, h2, if_true]
+  exact ⟨trivial, trivial⟩
+
+/-- non-vacuity: an iterator on a pool of 16 has the slots 0 (also the inline caller's) and 15 -/
+example : (0 : Nat) < 16 ∧ (15 : Nat) < 16 := by decide
+
+/-! ### `ml::tune`: the batch as coded, any order of its tasks -/
+
+open NanoVerif.Tune NanoVerif.Sharing in
+/-- **`ml::tune` is schedule independent** (from C13 `tune_reads_only_earlier`). `r0` = the result before the batch (`old` = its
+    parameter rows, at least one trial), `new` = the rows of the batch, `params t` = the row of new trial `t`; every task is
+    handed `closest_trial(params, old_trials)` computed on the rows INCLUDING the batch in flight (`result.add` comes first), and
+    reads `result.extra(closest, fold)` from the LIVE result while the other tasks of the batch store into it
+    (`runBatchLive`: tune.cpp:25-41 as coded). For every two orders in which the pool runs every (trial, fold) index once:
+    the stored result is the same, and it is `runBatch` — every slot (old + t, f) holds the callback's answer for (t, f) given the
+    data of a trial of an EARLIER batch (`batch_slots`), a function of the callback and of `r0` only. -/
+theorem tune_schedule_independent {σ α π : Type} [Field α] [LinearOrder α] [IsStrictOrderedRing α] (top : α) (dist : π → π → α)
+    (cb : Nat → Nat → Option σ → σ) (r0 : Result σ) (hwf : r0.wf) (old new : List π) (hold : old.length = r0.trials)
+    (hpos : 0 < r0.trials) (params : Nat → π) (order order' : List Nat)
+    (hp : order.Perm (List.range (new.length * r0.folds))) (hp' : order'.Perm (List.range (new.length * r0.folds))) :
+    let closest := fun t => closestTrial top dist (old ++ new) (params t) r0.trials
+    runBatchLive cb closest r0 new.length order = runBatchLive cb closest r0 new.length order' ∧
+    runBatchLive cb closest r0 new.length order = runBatch cb closest r0 new.length order ∧
+    ∀ t f, t < new.length → f < r0.folds →
+      (runBatchLive cb closest r0 new.length order).get? (r0.trials + t) f =
+        some (cb t f (r0.get? (closestTrial top dist old (params t) r0.trials) f)) := by
+  intro closest
+  have hcl : ∀ (o : List Nat), ∀ i ∈ o, closest (decode r0.folds i).1 < r0.trials := by
+    intro o i _
+    exact (C13.tune_reads_only_earlier top dist r0 hwf old new hold hpos (params (decode r0.folds i).1) 0).1
+  have e1 := runBatchLive_eq cb closest r0 new.length order (hcl order)
+  have e2 := runBatchLive_eq cb closest r0 new.length order' (hcl order')
+  refine ⟨?_, e1, ?_⟩
+  · rw [e1, e2]
+    exact runBatch_schedule_independent cb closest r0 new.length order order' hp hp'
+  · intro t f ht hf
+    rw [e1, C13.batch_slots cb closest r0 hwf new.length order hp t f ht hf]
+    obtain ⟨_, h2, h3⟩ := C13.tune_reads_only_earlier top dist r0 hwf old new hold hpos (params t) f
+    show some (cb t f ((r0.add new.length).get? (closestTrial top dist (old ++ new) (params t) r0.trials) f)) = _
+    rw [h3, h2]
+
+open NanoVerif.Tune NanoVerif.Sharing in
+/-- The hypothesis "the closest trial is an EARLIER one" is necessary — seeded change C18-c1 (warm start from the trials of the
+    batch in flight): one earlier trial, a batch of two, both tasks handed trial 1 (the first of the batch) as closest. The two
+    orders of the two tasks store different results (the second task does or does not see the first one's data); with the
+    closest trial 0 (earlier) both orders agree. Kernel-checked; on the real code: `fit` ops under pools 1 vs 16. -/
+theorem tune_live_read_in_flight_schedule_dependent :
+    let cb : Nat → Nat → Option Nat → Nat := fun t _ prev => prev.getD 0 + 10 * (t + 1)
+    let r0 : Result Nat := ⟨1, 1, [some 7]⟩
+    (runBatchLive cb (fun _ => 1) r0 2 [0, 1]).slots = [some 7, some 10, some 30] ∧
+    (runBatchLive cb (fun _ => 1) r0 2 [1, 0]).slots = [some 7, some 10, some 20] ∧
+    (runBatchLive cb (fun _ => 0) r0 2 [0, 1]).slots = [some 7, some 17, some 27] ∧
+    (runBatchLive cb (fun _ => 0) r0 2 [1, 0]).slots = [some 7, some 17, some 27] := by
+  decide
+
+open NanoVerif.Tune in
+/-- non-vacuity of `tune_schedule_independent`: one earlier trial with parameter 3, a batch of two trials (parameters 4 and 9),
+    2 folds; the two orders are permutations of the four indices -/
+example : ([0, 1, 2, 3] : List Nat).Perm (List.range (2 * 2)) ∧ ([3, 1, 0, 2] : List Nat).Perm (List.range (2 * 2)) ∧
+    (⟨2, 1, [some 5, some 6]⟩ : Result Nat).wf ∧
+    closestTrial (1000 : Int) (fun a b => (a - b) * (a - b)) ([3] ++ [4, 9]) 9 1 = 0 := by
+  refine ⟨by decide, by decide, rfl, by decide⟩
+
+open NanoVerif.Tune NanoVerif.MLResult NanoVerif.Sharing in
+/-- **The fitted `ml::result_t` is schedule independent** (C11's model of what `ml::tune` fills: four `store_stats` blocks and
+    the model-specific data per (trial, fold)). Two histories of batches with the same trials, closest-trial maps and model
+    callbacks that differ ONLY in the order in which the pool ran the (trial, fold) tasks of each batch (`SameBatches`) fill
+    the same result: every slot, hence every reported statistic `stats(trial, fold, split, kind)` (which C11
+    `reported_stats_are_stats_of_recomputed` identifies, for any order, with `store_stats` of the fold model's values), every
+    `extra(trial, fold)` — the fold fits write disjoint slots (`tune_writes_disjoint`) and read only earlier ones. -/
+theorem fit_result_schedule_independent {E α : Type} [Add α] [Sub α] [Mul α] [Div α] [LT α] [LE α] [DecidableLT α]
+    [DecidableLE α] [OfNat α 0] [OfNat α 1] [OfNat α 2] [OfNat α 50] [OfNat α 100] [NanoVerif.Stats.FloorI α]
+    [NanoVerif.Stats.HasSqrt α] (sort : List α → List α) (folds : Nat) (bs bs' : List (Batch E α))
+    (h : List.Forall₂ (SameBatches folds) bs bs') :
+    runTune sort folds bs = runTune sort folds bs' ∧
+    (∀ t f split kind, stats (runTune sort folds bs) t f split kind = stats (runTune sort folds bs') t f split kind) ∧
+    (∀ t f, extraOf (runTune sort folds bs) t f = extraOf (runTune sort folds bs') t f) := by
+  have e := runTune_schedule_independent sort folds bs bs' h
+  exact ⟨e, fun t f split kind => by rw [e], fun t f => by rw [e]⟩
+
+/-! ### weak-learner fits -/
+
+open NanoVerif.WLearner NanoVerif.Sharing in
+/-- **The decision-tree fit is assignment independent** (C10: `fit_assignment_independent` for the stump fitted at a node, the
+    BFS loop of `dtree.cpp`). The stump fit of EVERY processed node is its own `pool_t::map` over the scalar features, with its
+    own assignment `sched fuel samples` of the features to workers — any family of assignments in which every feature goes to
+    exactly one worker and every worker sees its features in increasing index order (what the pool produces), any number of
+    workers, different at every node. The loop then builds exactly the tree one thread builds: same nodes, thresholds, tables,
+    score (`dtreeFit` of C10). Exact score ties between features are allowed (smallest index wins on every schedule). -/
+theorem dtree_fit_assignment_independent {α : Type} [Field α] [LinearOrder α] [IsStrictOrderedRing α] [Log α] [FinTest α]
+    (sort : List (Item α) → List (Item α)) (T : Nat) (K big : α) (crit : Crit)
+    (feats : List Nat) (hinc : feats.Pairwise (· < ·)) (val : Nat → Nat → FVal α) (resid : Nat → Vec α)
+    (N maxDepth minSplit : Nat) (sched : Nat → List Nat → List (List Nat))
+    (hs : ∀ n sel, (sched n sel).flatten.Perm feats ∧ ∀ w ∈ sched n sel, w.Pairwise (· < ·)) (samples : List Nat) :
+    dtreeLoopS (stumpTreeCfg sort T K big crit feats val resid N maxDepth minSplit)
+        (fun n sel => stumpFitAssigned sort T K big crit (sched n sel) val resid sel)
+        (2 ^ maxDepth) [⟨samples, 0, 0⟩] TState.init =
+      dtreeFit (stumpTreeCfg sort T K big crit feats val resid N maxDepth minSplit) samples :=
+  dtree_fit_schedule_independent sort T K big crit feats hinc val resid N maxDepth minSplit sched hs samples
+
+/-- non-vacuity: three features; at even steps the pool has two workers holding [2] and [0, 1], at odd steps one worker -/
+example :
+    let sched : Nat → List Nat → List (List Nat) := fun n _ => if n % 2 = 0 then [[2], [0, 1]] else [[0, 1, 2]]
+    ([0, 1, 2] : List Nat).Pairwise (· < ·) ∧
+    ∀ n (sel : List Nat), (sched n sel).flatten.Perm [0, 1, 2] ∧ ∀ w ∈ sched n sel, w.Pairwise (· < ·) := by
+  refine ⟨by decide, ?_⟩
+  intro n sel
+  by_cases h : n % 2 = 0
+  · simp only [h, if_true]
+    exact ⟨by decide, by decide⟩
+  · simp only [h, if_false]
+    exact ⟨by decide, by decide⟩
+
+open NanoVerif.Iterator NanoVerif.Objective NanoVerif.Sharing in
+/-- **Feature selection looks at the same features for every thread count** (C09 `loopKind_visits` / `loopList_visits`): for
+    every dataset (the kinds of its features), every kind of callback, ANY two pool sizes and ANY two schedules naming one
+    existing worker per chunk, `select_iterator_t::loop(samples, callback)` calls the callback for the same list of features —
+    exactly the dataset's features of that kind, each once, in increasing index order — always with an existing buffer index.
+    (With `min_reduce_assignment_independent` / `table_min_reduce_assignment_independent`: the selected feature is the same.) -/
+theorem feature_selection_thread_count_independent (kinds : List FKind) (k : FKind) (w1 w2 : Nat) (asg1 asg2 : List Nat)
+    (h1 : ValidAsg w1 (makeFeatures kinds k).length (featuresPerThread (makeFeatures kinds k).length w1) asg1)
+    (h2 : ValidAsg w2 (makeFeatures kinds k).length (featuresPerThread (makeFeatures kinds k).length w2) asg2) :
+    ∃ c1 c2, loopKind kinds k w1 asg1 = some c1 ∧ loopKind kinds k w2 asg2 = some c2 ∧
+      c1.map Call.ifeature = c2.map Call.ifeature ∧ c1.map Call.ifeature = makeFeatures kinds k ∧
+      (∀ c ∈ c1, c.tnum < w1) ∧ (∀ c ∈ c2, c.tnum < w2) :=
+  select_loop_thread_count_independent kinds k w1 w2 asg1 asg2 h1 h2
+
+open NanoVerif.Iterator NanoVerif.Sharing in
+/-- The seeded change C18-e3 ("one contiguous range of `features_per_thread` positions per worker, `min(concurrency, n)`
+    workers") visits only the first 8 of 9 features on 8 threads and the first 16 of 17 on 16 threads, while it is complete on
+    (9, 2) and (8, 8): it contradicts the theorem above exactly for the (features, threads) pairs with
+    `min(threads, n) · round(n / threads) < n`. The loop as coded visits all 9 positions on 8 threads. Kernel-checked; on the
+    real code: `wfit` ops over pools 1, 2, 3, 4, 5, 7, 16 with feature counts in every residue class. -/
+theorem seeded_feature_loop_drops_features :
+    seededVisits 9 8 = [0, 1, 2, 3, 4, 5, 6, 7] ∧ seededVisits 17 16 = List.range 16 ∧ seededVisits 9 2 = List.range 9 ∧
+    seededVisits 8 8 = List.range 8 ∧
+    (loopList (List.range 9) 8 [0, 1, 2, 3, 4, 5, 6, 7, 0]).map (·.map Call.ifeature) = some (List.range 9) :=
+  seeded_loop_drops_features
+
+open NanoVerif.Iterator NanoVerif.Objective in
+/-- non-vacuity: 5 scalar features among 7; pool of 2 (chunks of 3: two chunks) vs pool of 16 (chunks of 1: five chunks) -/
+example :
+    let kinds : List FKind := [.scalar, .sclass, .scalar, .scalar, .struct, .scalar, .scalar]
+    makeFeatures kinds .scalar = [0, 2, 3, 5, 6] ∧
+    ValidAsg 2 5 (featuresPerThread 5 2) [1, 0] ∧ ValidAsg 16 5 (featuresPerThread 5 16) [3, 15, 0, 3, 7] := by
+  decide
+
 /-! ### the reviewed list of state a `const` method can modify or that all objects share -/
 
-open NanoVerif.Gen.MutableState in
-/-- Every entry was reviewed against the sources; the reason says why concurrent use through the const interface — each
-    thread with its own function object, as the property states — does not share it, or what synchronises it.
-    Tags: [per-function] owned by one function object, which one thread uses; [per-call] created inside the call;
-    [per-worker] a vector with one slot per worker id (`perthread_buffers_exclusive`); [sync] protected by a mutex /
-    `std::call_once` / atomic; [owner] const access only calls const members of the pointee; [load] written while loading only. -/
-def allow : List (Entry × String) := [
-  (⟨.indirect, "include/nano/core/parallel.h", "worker_t", "m_queue", "queue_t&"⟩,
-    "[sync] the pool's queue: every access to m_tasks/m_stop is under m_mutex (lock discipline checked on traces by C17)"),
-  (⟨.indirect, "include/nano/dataset.h", "dataset_t", "m_generators", "rgenerators_t"⟩,
-    "[owner] const dataset methods call only const generator members (select/flatten/feature); generators hold no mutable state"),
-  (⟨.indirect, "include/nano/dataset.h", "dataset_t", "m_pool", "rtpool_t"⟩,
-    "[sync] thread_pool() const hands out the shared pool: pool_t::map is safe for several submitters (C17: queue under its mutex)"),
-  (⟨.indirect, "include/nano/factory.h", "factory_t::proto_t", "m_prototype", "trobject"⟩,
-    "[owner] get() only clones the prototype (const); add() runs once under std::call_once"),
-  (⟨.indirect, "include/nano/function/constraint.h", "functional_t", "m_function", "rfunction_t"⟩,
-    "[per-function] the wrapped function belongs to one constraint of one function object (own fcalls counters)"),
-  (⟨.indirect, "include/nano/gboost/model.h", "gboost_model_t", "m_prototypes", "rwlearners_t"⟩,
-    "[owner] fit() clones each prototype per round (`prototype->clone()`), never fits the prototype itself"),
-  (⟨.indirect, "include/nano/gboost/model.h", "gboost_model_t", "m_wlearners", "rwlearners_t"⟩,
-    "[owner] do_predict (const) calls wlearner_t::predict (const) only; written by fit() (non-const) after the parallel section"),
-  (⟨.indirect, "include/nano/gboost/result.h", "result_t", "m_wlearners", "rwlearners_t"⟩,
-    "[per-call] the per-(trial, fold) booster, built inside one task and moved into its own m_extras slot (`tune_writes_disjoint`)"),
-  (⟨.indirect, "include/nano/logger.h", "logger_t", "m_pimpl", "std::unique_ptr<impl_t>"⟩,
-    "[per-call] ml::tune makes one file logger per (trial, fold) task; a logger object shared by concurrent calls writes to one unsynchronised std::ostream — outside the statement, the harness gives every thread its own logger"),
-  (⟨.indirect, "include/nano/machine/params.h", "params_t", "m_solver", "rsolver_t"⟩,
-    "[owner] solver() const returns const solver_t&: the ONE solver shared by all fold/trial tasks — see solver_t::m_lsearch0/k"),
-  (⟨.indirect, "include/nano/machine/params.h", "params_t", "m_splitter", "rsplitter_t"⟩,
-    "[owner] split() is const and seeds its own rng per call; called before the parallel section"),
-  (⟨.indirect, "include/nano/machine/params.h", "params_t", "m_tuner", "rtuner_t"⟩,
-    "[owner] optimize() is const, called by the one thread that runs ml::tune"),
-  (⟨.indirect, "include/nano/solver.h", "solver_t", "m_lsearch0", "rlsearch0_t"⟩,
-    "[owner] PROTOTYPE: const methods only clone() it (make_lsearch) — the non-const lsearch0_t::get (m_prevf, m_prevdg) is called on the per-call clone (`minimize_is_pure`)"),
-  (⟨.indirect, "include/nano/solver.h", "solver_t", "m_lsearchk", "rlsearchk_t"⟩,
-    "[owner] PROTOTYPE: const methods only clone() it (make_lsearch); lsearchk_t::get is const and keeps its state in locals"),
-  (⟨.indirect, "include/nano/solver/lsearch.h", "lsearch_t", "m_lsearch0", "rlsearch0_t"⟩,
-    "[per-call] the clone made by make_lsearch for this minimize call; its history (m_prevf, m_prevdg) starts fresh"),
-  (⟨.indirect, "include/nano/solver/lsearch.h", "lsearch_t", "m_lsearchk", "rlsearchk_t"⟩,
-    "[per-call] the clone made by make_lsearch for this minimize call"),
-  (⟨.indirect, "include/nano/tensor/storage.h", "tensor_marray_storage_t", "m_data", "tscalar*"⟩,
-    "[owner] a mutable map is a view: who may write through it is decided by who holds the mapped buffer (per-worker / per-call buffers, disjoint slices by C16/C17 chunks_tile)"),
-  (⟨.indirect, "src/lsearchk/cgdescent.cpp", "lsearchk_cgdescent_t::interval_t", "c", "solver_state_t&"⟩,
-    "[per-call] local object of one lsearchk get() call, refers to the caller's own state"),
-  (⟨.mutable_, "include/nano/core/parallel.h", "queue_t", "m_condition", "std::condition_variable"⟩,
-    "[sync] synchronisation primitive"),
-  (⟨.mutable_, "include/nano/core/parallel.h", "queue_t", "m_mutex", "std::mutex"⟩,
-    "[sync] synchronisation primitive"),
-  (⟨.mutable_, "include/nano/dataset/iterator.h", "flatten_iterator_t", "m_flatten_buffers", "buffers_t"⟩,
-    "[per-worker] concurrency() slots indexed by tnum; the iterator belongs to one function object / one fit call"),
-  (⟨.mutable_, "include/nano/dataset/iterator.h", "select_iterator_t", "m_buffers", "buffers_t"⟩,
-    "[per-worker] concurrency() slots indexed by tnum (tnum 0 on the caller's single-feature path); one iterator per weak-learner fit"),
-  (⟨.mutable_, "include/nano/dataset/iterator.h", "targets_iterator_t", "m_targets_buffers", "buffers_t"⟩,
-    "[per-worker] concurrency() slots indexed by tnum; the iterator belongs to one fit call"),
-  (⟨.mutable_, "include/nano/feature.h", "feature_t", "m_labels", "strings_t"⟩,
-    "[load] written by feature_t::set_label (const!) which datasource_t::set calls while loading, single-threaded. NOT synchronised: two threads calling set_label on a shared feature with free label slots would race — no const method of dataset/generator/model calls it; outside the operations C18 quantifies over (reported as an observation)"),
-  (⟨.mutable_, "include/nano/function.h", "function_t", "m_fcalls", "tensor_size_t"⟩,
-    "[per-function] call counter of one function object; each thread uses its own function object (statement of C18)"),
-  (⟨.mutable_, "include/nano/function.h", "function_t", "m_gcalls", "tensor_size_t"⟩,
-    "[per-function] call counter of one function object; each thread uses its own function object (statement of C18)"),
-  (⟨.mutable_, "include/nano/gboost/function.h", "bias_function_t", "m_accumulators", "accumulators_t"⟩,
-    "[per-function][per-worker] one slot per worker id, function object built inside one fold task"),
-  (⟨.mutable_, "include/nano/gboost/function.h", "bias_function_t", "m_outputs", "tensor4d_t"⟩,
-    "[per-function] written in disjoint sample ranges (chunks_tile), function object built inside one fold task"),
-  (⟨.mutable_, "include/nano/gboost/function.h", "bias_function_t", "m_values", "tensor1d_t"⟩,
-    "[per-function] written in disjoint sample ranges (chunks_tile), function object built inside one fold task"),
-  (⟨.mutable_, "include/nano/gboost/function.h", "bias_function_t", "m_vgrads", "tensor4d_t"⟩,
-    "[per-function] written in disjoint sample ranges (chunks_tile), function object built inside one fold task"),
-  (⟨.mutable_, "include/nano/gboost/function.h", "grads_function_t", "m_values", "tensor1d_t"⟩,
-    "[per-function] written in disjoint sample ranges (chunks_tile), function object built inside one fold task"),
-  (⟨.mutable_, "include/nano/gboost/function.h", "grads_function_t", "m_vgrads", "tensor4d_t"⟩,
-    "[per-function] written in disjoint sample ranges (chunks_tile), function object built inside one fold task"),
-  (⟨.mutable_, "include/nano/gboost/function.h", "scale_function_t", "m_accumulators", "accumulators_t"⟩,
-    "[per-function][per-worker] one slot per worker id, function object built inside one fold task"),
-  (⟨.mutable_, "include/nano/gboost/function.h", "scale_function_t", "m_outputs", "tensor4d_t"⟩,
-    "[per-function] written in disjoint sample ranges (chunks_tile), function object built inside one fold task"),
-  (⟨.mutable_, "include/nano/gboost/function.h", "scale_function_t", "m_values", "tensor1d_t"⟩,
-    "[per-function] written in disjoint sample ranges (chunks_tile), function object built inside one fold task"),
-  (⟨.mutable_, "include/nano/gboost/function.h", "scale_function_t", "m_vgrads", "tensor4d_t"⟩,
-    "[per-function] written in disjoint sample ranges (chunks_tile), function object built inside one fold task"),
-  (⟨.mutable_, "include/nano/linear/function.h", "function_t", "m_accumulators", "accumulators_t"⟩,
-    "[per-function][per-worker] one slot per worker id (linear/function.cpp:53), function object built inside one fit call"),
-  (⟨.mutable_, "include/nano/solver/lsearch.h", "lsearch_t", "m_last_step_size", "scalar_t"⟩,
-    "[per-call] member of the lsearch_t object that make_lsearch returns by value for this minimize call"),
-  (⟨.mutable_, "include/nano/tuner/surrogate.h", "quadratic_surrogate_fit_t", "m_loss_outputs", "tensor4d_t"⟩,
-    "[per-function] local function object of one surrogate tuner step, used by the tuning thread only"),
-  (⟨.mutable_, "include/nano/tuner/surrogate.h", "quadratic_surrogate_fit_t", "m_loss_values", "tensor1d_t"⟩,
-    "[per-function] local function object of one surrogate tuner step, used by the tuning thread only"),
-  (⟨.mutable_, "include/nano/tuner/surrogate.h", "quadratic_surrogate_fit_t", "m_loss_vgrads", "tensor4d_t"⟩,
-    "[per-function] local function object of one surrogate tuner step, used by the tuning thread only"),
-  (⟨.mutable_, "src/lsearchk/cgdescent.cpp", "lsearchk_cgdescent_t::params_t", "m_max_iterations", "int"⟩,
-    "[per-call] params_t is a local of one lsearchk get() call (make_params returns it by value)"),
-  (⟨.mutable_, "src/program/solver.cpp", "solver_t::program_t", "m_ldlt", "lin_solver_t"⟩,
-    "[per-call] program_t is a temporary of one solve() call"),
-  (⟨.mutable_, "src/program/solver.cpp", "solver_t::program_t", "m_lmat", "matrix_t"⟩,
-    "[per-call] program_t is a temporary of one solve() call"),
-  (⟨.mutable_, "src/program/solver.cpp", "solver_t::program_t", "m_lsol", "vector_t"⟩,
-    "[per-call] program_t is a temporary of one solve() call"),
-  (⟨.mutable_, "src/program/solver.cpp", "solver_t::program_t", "m_lvec", "vector_t"⟩,
-    "[per-call] program_t is a temporary of one solve() call"),
-  (⟨.static_, "src/core/parallel.cpp", "nano::verif::pool_hook", "hook", "static std::atomic<pool_hook_t>"⟩,
-    "[sync] verification hook H1 (NANO_VERIF builds only): an atomic function pointer"),
-  (⟨.static_, "src/core/parallel.cpp", "nano::verif::trace_sink", "sink", "thread_local trace_sink_t"⟩,
-    "[per-call] verification hook H2 (NANO_VERIF builds only): thread_local"),
-  (⟨.static_, "src/datasource.cpp", "datasource_t::all", "flag", "static std::once_flag"⟩, "[sync] guards the registration below"),
-  (⟨.static_, "src/datasource.cpp", "datasource_t::all", "manager", "static auto"⟩,
-    "[sync] factory filled once under std::call_once, read-only afterwards (get() clones)"),
-  (⟨.static_, "src/function.cpp", "function_t::all", "flag", "static std::once_flag"⟩, "[sync] guards the registration below"),
-  (⟨.static_, "src/function.cpp", "function_t::all", "manager", "static auto"⟩,
-    "[sync] factory filled once under std::call_once, read-only afterwards (get() clones)"),
-  (⟨.static_, "src/generator.cpp", "generator_t::all", "flag", "static std::once_flag"⟩, "[sync] guards the registration below"),
-  (⟨.static_, "src/generator.cpp", "generator_t::all", "manager", "static auto"⟩,
-    "[sync] factory filled once under std::call_once, read-only afterwards (get() clones)"),
-  (⟨.static_, "src/linear.cpp", "linear_t::all", "flag", "static std::once_flag"⟩, "[sync] guards the registration below"),
-  (⟨.static_, "src/linear.cpp", "linear_t::all", "manager", "static auto"⟩,
-    "[sync] factory filled once under std::call_once, read-only afterwards (get() clones)"),
-  (⟨.static_, "src/loss.cpp", "loss_t::all", "flag", "static std::once_flag"⟩, "[sync] guards the registration below"),
-  (⟨.static_, "src/loss.cpp", "loss_t::all", "manager", "static auto"⟩,
-    "[sync] factory filled once under std::call_once, read-only afterwards (get() clones)"),
-  (⟨.static_, "src/lsearch0.cpp", "lsearch0_t::all", "flag", "static std::once_flag"⟩, "[sync] guards the registration below"),
-  (⟨.static_, "src/lsearch0.cpp", "lsearch0_t::all", "manager", "static auto"⟩,
-    "[sync] factory filled once under std::call_once, read-only afterwards (get() clones)"),
-  (⟨.static_, "src/lsearchk.cpp", "lsearchk_t::all", "flag", "static std::once_flag"⟩, "[sync] guards the registration below"),
-  (⟨.static_, "src/lsearchk.cpp", "lsearchk_t::all", "manager", "static auto"⟩,
-    "[sync] factory filled once under std::call_once, read-only afterwards (get() clones)"),
-  (⟨.static_, "src/solver.cpp", "solver_t::all", "flag", "static std::once_flag"⟩, "[sync] guards the registration below"),
-  (⟨.static_, "src/solver.cpp", "solver_t::all", "manager", "static auto"⟩,
-    "[sync] factory filled once under std::call_once, read-only afterwards (get() clones)"),
-  (⟨.static_, "src/splitter.cpp", "splitter_t::all", "flag", "static std::once_flag"⟩, "[sync] guards the registration below"),
-  (⟨.static_, "src/splitter.cpp", "splitter_t::all", "manager", "static auto"⟩,
-    "[sync] factory filled once under std::call_once, read-only afterwards (get() clones)"),
-  (⟨.static_, "src/tuner.cpp", "tuner_t::all", "flag", "static std::once_flag"⟩, "[sync] guards the registration below"),
-  (⟨.static_, "src/tuner.cpp", "tuner_t::all", "manager", "static auto"⟩,
-    "[sync] factory filled once under std::call_once, read-only afterwards (get() clones)"),
-  (⟨.static_, "src/wlearner.cpp", "wlearner_t::all", "flag", "static std::once_flag"⟩, "[sync] guards the registration below"),
-  (⟨.static_, "src/wlearner.cpp", "wlearner_t::all", "manager", "static auto"⟩,
-    "[sync] factory filled once under std::call_once, read-only afterwards (get() clones)")
-]
+/- The reviewed list `allow` (entry + reason) lives in `Proofs/SharingAllow.lean`, written from `ALLOW` of tools/props/c18.py
+   (one place to edit; the check compares the two). Tags: [per-function] owned by one function object, which one thread uses;
+   [per-call] created inside the call; [per-worker] a vector with one slot per worker id (`perthread_buffers_exclusive`) owned by a
+   per-call object (`inline_calls_share_no_buffer`); [sync] protected by a mutex / `std::call_once` / atomic; [owner] const access
+   only calls const members of the pointee; [load] written while loading only. -/
 
 open NanoVerif.Gen.MutableState in
 /-- Every `mutable` member, non-const `static` / `thread_local` / namespace-scope variable and pointer/reference member that
@@ -464,7 +634,9 @@ open NanoVerif.Gen.MutableState in
     A new `mutable` cache on a shared object, a prototype turned into a `shared_ptr`, a new function-local `static` … makes
     this theorem fail until the new entry has been reviewed. -/
 theorem mutable_state_allowlisted : ∀ e ∈ table, e ∈ allow.map (·.1) := by
-  decide
+  have h : (table.all fun e => (allow.map (·.1)).contains e) = true := by decide +kernel
+  intro e he
+  exact List.contains_iff_mem.mp (List.all_eq_true.mp h e he)
 
 open NanoVerif.Gen.MutableState in
 /-- the table is not empty (the scan found the entries the property's anchors name) -/
